@@ -837,8 +837,26 @@ func IngressNamespaceScoping(p *core.Program, r *core.Report, rule string) {
 		ast.Inspect(fd.Decl.Body, func(n ast.Node) bool {
 			if c, isC := n.(*ast.CallExpr); isC {
 				if fn := core.Callee(info, c); fn != nil && fn.Name() == "getIngressPeerConnection" && len(c.Args) >= 3 {
-					a0, a1, a2 := core.ExprStr(c.Args[0]), core.ExprStr(c.Args[1]), core.ExprStr(c.Args[2])
-					okPorts = a0 == "peer" && strings.HasSuffix(a1, ".ports") && strings.HasSuffix(a2, ".servicePort") && strings.HasPrefix(a1, "peersAndPorts")
+					// (the element of <entry>.peers, <entry>.ports, <designation>.servicePort) where <entry> is the value
+					// looked up in servicesToPortsAndPeersMap
+					a1, a2 := core.ExprStr(c.Args[1]), core.ExprStr(c.Args[2])
+					okPorts = strings.HasSuffix(a1, ".ports") && strings.HasSuffix(a2, ".servicePort")
+					if id0, isID := ast.Unparen(c.Args[0]).(*ast.Ident); isID && okPorts {
+						okPorts = false
+						entry := core.RootIdent(c.Args[1])
+						ast.Inspect(fd.Decl.Body, func(m ast.Node) bool {
+							if rs, isRs := m.(*ast.RangeStmt); isRs && entry != nil {
+								if v, isV := rs.Value.(*ast.Ident); isV && info.ObjectOf(v) == info.ObjectOf(id0) {
+									if re := core.RootIdent(rs.X); re != nil && info.ObjectOf(re) == info.ObjectOf(entry) && strings.HasSuffix(core.ExprStr(rs.X), ".peers") {
+										okPorts = true
+									}
+								}
+							}
+							return true
+						})
+					} else {
+						okPorts = false
+					}
 				}
 			}
 			return true
